@@ -33,11 +33,14 @@ static bool ex_fits(const Ex& X, uint64_t p, Dy* out = nullptr) {
   Dy v = dnorm(Dy{n, X.ex - (long)(d.bits() - 1)}); if (out) *out = v; return v.m.bits() <= p;
 }
 
-struct F { mpf_t f; Dy v; bool init = false; F() {} ~F() { if (init) mpf_clear(f); } void mk(uint64_t bits) { mpf_init2(f, bits); init = true; } };
+struct F { mpf_t f; Dy v; bool init = false; unsigned long raw0 = 0; F() {} ~F() { if (init) { if (raw0) mpf_set_prec_raw(f, raw0); mpf_clear(f); } } void mk(uint64_t bits) { mpf_init2(f, bits); init = true; }
+  // lower the precision with mpf_set_prec_raw after the value was stored: the value keeps its limbs (possibly more than the new prec+1), as the manual describes
+  void lower_raw(uint64_t bits) { if (!raw0) raw0 = mpf_get_prec(f); mpf_set_prec_raw(f, bits); } };
+static bool g_allow_excess = false;   // set while judging an in-place result on a raw-lowered variable (it may legitimately keep more than prec+1 limbs)
 static Dy read_mpf(mpf_srcptr f) { int s = f->_mp_size; size_t n = s < 0 ? -s : s; Dy r; r.m = Int::from_limbs((const uint64_t*)f->_mp_d, n, s < 0); r.e = n ? 64 * ((long)f->_mp_exp - (long)n) : 0; return r; }
 static const char* mpf_illformed(mpf_srcptr f) {
   int s = f->_mp_size; size_t n = s < 0 ? -s : s;
-  if (n > (size_t)f->_mp_prec + 1) return "more than prec+1 limbs";
+  if (n > (size_t)f->_mp_prec + 1 && !g_allow_excess) return "more than prec+1 limbs";
   if (n && f->_mp_d[n - 1] == 0) return "top limb is zero";
   if (n == 0 && f->_mp_exp != 0) return "zero with non-zero exponent";
   return nullptr;
@@ -102,6 +105,8 @@ static void case_arith(ByteSource& in, CaseInfo& ci) {
     int sa = in.flag() ? 1 : -1; int sb = (f == 0) ? -sa : sa; a.f->_mp_size = sa * (int)na; b.f->_mp_size = sb * (int)nb;
     if (in.flag()) { std::swap(a.f->_mp_d, b.f->_mp_d); std::swap(a.f->_mp_size, b.f->_mp_size); std::swap(a.f->_mp_exp, b.f->_mp_exp); std::swap(a.f->_mp_prec, b.f->_mp_prec); if (f == 0) {} }
     a.v = read_mpf(a.f); b.v = read_mpf(b.f); ci.label("x+1|000_minus_x|fff"); }
+  bool rawa = false; if (in.chance(40) && mpf_get_prec(a.f) > 64) { a.lower_raw(64 * in.range(1, (mpf_get_prec(a.f) + 63) / 64 - 1)); rawa = true; ci.label("operand_longer_than_prec_raw"); }
+  if (in.chance(25) && mpf_get_prec(b.f) > 64) { b.lower_raw(64 * in.range(1, (mpf_get_prec(b.f) + 63) / 64 - 1)); ci.label("operand_longer_than_prec_raw"); }
   uint64_t u = in.pick({3, 1, 1, 1}) == 0 ? in.u64() : in.flag() ? in.range(0, 100) : PALETTE[in.u8() & 7];
   if (f >= 5 && f <= 7 && u >= 1 && in.chance(90)) {   // the operand nearly (or exactly) cancels against the unsigned long: a = +-u, +-(u + tiny), +-(u - tiny), possibly stored with low zero limbs
     size_t n = (size_t)in.range(1, (size_t)a.f->_mp_prec + 1); unsigned k = n == 1 ? 0 : in.pick({2, 3, 3}); for (size_t i = 0; i < n; i++) a.f->_mp_d[i] = 0; a.f->_mp_d[n - 1] = u;
@@ -114,6 +119,7 @@ static void case_arith(ByteSource& in, CaseInfo& ci) {
   ci.d("%s p=%llu ", names[f], (unsigned long long)p); DESC(ci, "a=" + dshow(a.v) + " b=" + dshow(b.v) + " ui=" + std::to_string(u));
   // aliasing of the destination with an operand (precision then is the operand's)
   unsigned al = in.pick({5, 1, 1}); mpf_ptr o = d.r.f; if (al == 1) { o = a.f; p = mpf_get_prec(a.f); } else if (al == 2 && f <= 3) { o = b.f; p = mpf_get_prec(b.f); } if (o != d.r.f) ci.label("dest_aliases_operand");
+  struct AE { ~AE() { g_allow_excess = false; } } ae; g_allow_excess = (o == a.f && a.raw0) || (o == b.f && b.raw0); (void)rawa;
   auto setX = [&](const Dy& v) { X = Ex{v.m, Int(1), v.e}; };
   switch (f) {
     case 0: setX(dadd(a.v, b.v)); opfit = fitsp(a.v, p) && fitsp(b.v, p); mpf_add(o, a.f, b.f); break;
@@ -155,7 +161,7 @@ static void case_set(ByteSource& in, CaseInfo& ci) {
     Int g = ref::gcd(n, dd); if (!g.is_zero()) { n = ref::tdiv(n, g); dd = ref::tdiv(dd, g); } if (n.is_zero()) dd = Int(1);
     mpq_t q; mpq_init(q); mpz_from_int(mpq_numref(q), n); mpz_from_int(mpq_denref(q), dd); X = Ex{n, dd, 0}; opfit = n.bits() <= p && dd.bits() <= p; ci.nontrivial = !n.is_zero(); DESC(ci, "mpf_set_q q=" + show(n, 40) + "/" + show(dd, 40)); mpf_set_q(d.r.f, q); mpq_clear(q); }
   else if (f == 1) { Int z = gen_int(in, cap); if (in.flag()) z = ref::shl(z, 64 * in.range(0, 5)); mpz_t zz; mpz_init(zz); mpz_from_int(zz, z); X = Ex{z, Int(1), 0}; opfit = true; ci.nontrivial = !z.is_zero(); DESC(ci, "mpf_set_z z=" + show(z, 40)); mpf_set_z(d.r.f, zz); mpz_clear(zz); }
-  else { uint64_t bits = in.u64(); if (in.flag()) bits = (bits & 0x800fffffffffffffull) | ((uint64_t)in.range(1, 2046) << 52); if (((bits >> 52) & 0x7ff) == 0x7ff) bits &= ~(1ull << 62); double dv; memcpy(&dv, &bits, 8); int ex; double m = std::frexp(dv, &ex); Int mant((long long)std::ldexp(m, 53)); X = Ex{mant, Int(1), (long)ex - 53}; if (mant.is_zero()) X.ex = 0; ci.nontrivial = dv != 0; ci.d("mpf_set_d d=%a ", dv); mpf_set_d(d.r.f, dv); }
+  else { uint64_t bits = in.u64(); unsigned dk = in.pick({3, 3, 2}); if (dk == 1) bits = (bits & 0x800fffffffffffffull) | ((uint64_t)in.range(1, 2046) << 52); if (dk == 2) { bits &= 0x800fffffffffffffull; if (in.flag()) bits &= ~0ull << in.range(0, 51); ci.label("set_d:subnormal"); } if (((bits >> 52) & 0x7ff) == 0x7ff) bits &= ~(1ull << 62); double dv; memcpy(&dv, &bits, 8); int ex; double m = std::frexp(dv, &ex); Int mant((long long)std::ldexp(m, 53)); X = Ex{mant, Int(1), (long)ex - 53}; if (mant.is_zero()) X.ex = 0; ci.nontrivial = dv != 0; ci.d("mpf_set_d d=%a ", dv); mpf_set_d(d.r.f, dv); }
   judge(names[f], d.r.f, X, p, opfit, ci); finish_dest(d);
 }
 // default-precision family: mpf_set_default_prec + mpf_init / mpf_init_set / _ui / _si / _d / _str / mpf_inits: the new variable gets
@@ -167,7 +173,7 @@ static void case_init_set(ByteSource& in, CaseInfo& ci) {
   if (f == 0) { F a; uint64_t pa = gen_prec(in); gen_operand(in, a, pa, (long)in.srange(-2, 3), ci); X = Ex{a.v.m, Int(1), a.v.e}; opfit = fitsp(a.v, dp); mpf_init_set(x, a.f); }
   else if (f == 1) { uint64_t u = in.flag() ? in.u64() : in.range(0, 100); X = Ex{Int::from_u64(u), Int(1), 0}; mpf_init_set_ui(x, u); }
   else if (f == 2) { int64_t v = in.flag() ? (int64_t)in.u64() : in.srange(-100, 100); if (in.chance(20)) v = INT64_MIN; X = Ex{Int((long long)v), Int(1), 0}; mpf_init_set_si(x, v); }
-  else if (f == 3) { uint64_t bits = in.u64(); if (((bits >> 52) & 0x7ff) == 0x7ff) bits &= ~(1ull << 62); double dv; memcpy(&dv, &bits, 8); int ex; double m = std::frexp(dv, &ex); Int mant((long long)std::ldexp(m, 53)); X = Ex{mant, Int(1), (long)ex - 53}; if (mant.is_zero()) X.ex = 0; ci.d("d=%a ", dv); mpf_init_set_d(x, dv); }
+  else if (f == 3) { uint64_t bits = in.u64(); if (in.chance(60)) bits &= 0x800fffffffffffffull; /* subnormal */ if (((bits >> 52) & 0x7ff) == 0x7ff) bits &= ~(1ull << 62); double dv; memcpy(&dv, &bits, 8); int ex; double m = std::frexp(dv, &ex); Int mant((long long)std::ldexp(m, 53)); X = Ex{mant, Int(1), (long)ex - 53}; if (mant.is_zero()) X.ex = 0; ci.d("d=%a ", dv); mpf_init_set_d(x, dv); }
   else if (f == 4) { long long iv = (long long)in.srange(-1000000000000ll, 1000000000000ll); unsigned sh = (unsigned)in.range(0, 40); std::string t = std::to_string(iv) + "e" + std::to_string(sh); Int num = Int(iv); for (unsigned i = 0; i < sh; i++) num = num * Int(10); X = Ex{num, Int(1), 0};
     int rc = mpf_init_set_str(x, t.c_str(), 10); REQUIRE(rc == 0, "mpf_init_set_str(\"%s\") returned %d", t.c_str(), rc); ci.d("str=%s ", t.c_str()); }
   else { mpf_t y; mpf_inits(x, y, (mpf_ptr)0); REQUIRE(mpf_get_prec(y) >= want && y->_mp_size == 0, "mpf_inits: second variable has precision %llu (default %llu) or is not zero", (unsigned long long)mpf_get_prec(y), (unsigned long long)want); mpf_clears(y, (mpf_ptr)0); X = Ex{Int(0), Int(1), 0}; }
@@ -177,13 +183,16 @@ static void case_init_set(ByteSource& in, CaseInfo& ci) {
 }
 static void case_exactfn(ByteSource& in, CaseInfo& ci) {
   unsigned f = in.pick({3, 3, 3, 2, 2, 3, 3}); static const char* names[] = {"mpf_floor", "mpf_ceil", "mpf_trunc", "mpf_neg", "mpf_abs", "mpf_mul_2exp", "mpf_div_2exp"}; ci.label(names[f]);
-  F a, r; uint64_t pa = gen_prec(in); gen_operand(in, a, pa, (long)in.srange(-1, 4), ci); r.mk(pa);   // destination with the operand's precision: the result is then exactly representable
-  bool inplace = in.flag(); mpf_ptr o = inplace ? a.f : r.f; uint64_t sh = in.flag() ? in.range(0, 200) : (uint64_t[]){0, 1, 63, 64, 65, 128}[in.range(0, 5)];
+  F a, r; uint64_t pa = gen_prec(in); gen_operand(in, a, pa, (long)in.srange(-1, 4), ci);
+  bool raw = pa > 64 && in.chance(50); if (raw) { uint64_t low = 64 * in.range(1, (pa + 63) / 64 - 1); a.lower_raw(low); r.mk(low); ci.label("operand_longer_than_prec_raw"); }
+  else r.mk(pa);   // destination with the operand's precision: the result is then exactly representable
+  bool inplace = in.flag(); struct AE { ~AE() { g_allow_excess = false; } } ae; g_allow_excess = raw && inplace; mpf_ptr o = inplace ? a.f : r.f; uint64_t sh = in.flag() ? in.range(0, 200) : (uint64_t[]){0, 1, 63, 64, 65, 128}[in.range(0, 5)];
   Dy e; const Dy& x = a.v; ci.nontrivial = !x.m.is_zero(); ci.d("%s shift=%llu ", names[f], (unsigned long long)sh); DESC(ci, "a=" + dshow(x));
   auto ipart = [&](int mode) { if (x.e >= 0) return Dy{x.m, x.e}; Int q = mode == 0 ? ref::fshr(x.m, -x.e) : mode == 2 ? ref::tshr(x.m, -x.e) : -ref::fshr(-x.m, -x.e); return Dy{q, 0}; };
   switch (f) { case 0: e = ipart(0); mpf_floor(o, a.f); break; case 1: e = ipart(1); mpf_ceil(o, a.f); break; case 2: e = ipart(2); mpf_trunc(o, a.f); break; case 3: e = dneg(x); mpf_neg(o, a.f); break; case 4: e = Dy{x.m.abs(), x.e}; mpf_abs(o, a.f); break;
     case 5: e = Dy{x.m, x.e + (long)sh}; mpf_mul_2exp(o, a.f, sh); break; default: e = Dy{x.m, x.e - (long)sh}; mpf_div_2exp(o, a.f, sh); break; }
   REQUIRE_FWF(o, names[f]); Dy g = read_mpf(o);
+  if (raw) { Ex X{e.m, Int(1), e.e}; REQUIRE(close_enough(g, X, mpf_get_prec(o)), "%s (operand longer than the precision after mpf_set_prec_raw%s): error beyond the precision bound: got %s, exact %s", names[f], inplace ? ", in place" : "", dshow(g).c_str(), dshow(e).c_str()); if (!inplace) REQUIRE(deq(read_mpf(a.f), x), "%s: operand modified", names[f]); return; }
   // the exact result may need one bit more than prec+1 limbs hold only for *_2exp with a bit shift: compare after truncating the expectation to the limbs the destination may hold
   size_t maxlimbs = (size_t)o->_mp_prec + 1; Dy en = dnorm(e); if ((f == 5 || f == 6) && en.m.bits() > 64 * (maxlimbs - 1)) { ci.label("2exp:may_truncate"); Ex X{e.m, Int(1), e.e}; REQUIRE(close_enough(g, X, mpf_get_prec(o)), "%s: error beyond the precision bound", names[f]); }
   else if (!deq(g, e)) {
@@ -257,5 +266,5 @@ static void check(ByteSource& in, CaseInfo& ci) { if (in.chance(12)) { case_init
 namespace eng {
 PropDef g_prop = {"C13",
   "Cases: one call of mpf_add/sub/mul/div/sqrt and their _ui forms, mpf_set_q/set_z/set_d, mpf_set_str, the default-precision family (mpf_set_default_prec then mpf_init_set/_ui/_si/_d/_str, mpf_inits: precision >= default, same value rules), mpf_floor/ceil/trunc/neg/abs/mul_2exp/div_2exp, mpf_get_str. Destination precision 1..2000 bits chosen independently of the operand precisions (shorter and longer), reached directly, through mpf_set_prec after another value, or through mpf_set_prec_raw (restored afterwards); the destination may alias an operand; operands are built limb by limb (up to prec+1 limbs, low zero limbs, all ones, single bit), with exponent relations no overlap / partial / full / far apart and nearly cancelling pairs for add/sub. Oracle: an mpf value is the exact dyadic rational mantissa*2^(64*(exp-size)) in refint; with p = mpf_get_prec(rop): |result-exact| < 2^(2-p)*|exact| (sqrt by squaring both bounds), result == exact whenever the operands and the exact value each fit in p bits, exact functions compared exactly, mpf_get_str: at most n_digits digits, no trailing zeros, right alphabet, value within one unit of the last requested digit (n_digits never exceeds what the precision carries); the format rules (|size| <= prec+1, top limb non-zero, zero has exponent 0) after every call. Non-trivial: non-zero first operand. Distinct = hash of all decoded choices.",
-  check, nullptr, {"exact_clause", "bound_clause", "result_truncated", "near_cancellation", "ui_operand_nearly_cancels", "x+1|000_minus_x|fff", "exponents_far_apart", "low_zero_limbs", "dest:set_prec", "dest:set_prec_raw", "dest_aliases_operand", "get_str:fewer_digits_than_requested"}, fixed_case};
+  check, nullptr, {"exact_clause", "bound_clause", "result_truncated", "near_cancellation", "ui_operand_nearly_cancels", "x+1|000_minus_x|fff", "exponents_far_apart", "low_zero_limbs", "operand_longer_than_prec_raw", "dest:set_prec", "dest:set_prec_raw", "dest_aliases_operand", "get_str:fewer_digits_than_requested"}, fixed_case};
 }
